@@ -5,7 +5,7 @@
    this model.  The monitor finds many positions where they do not hold (see checks/c09.py). *)
 From Coq Require Import List Arith Bool NArith.
 Import ListNotations.
-From SV Require Import C08.Syntax C08.Model C08.ProofsImpl C08.Layout C09.Model C09.Proofs.
+From SV Require Import C08.Syntax C08.Model C08.ProofsImpl C08.Layout C09.Model C09.Proofs C09.CommentProofs.
 
 (* (i) idempotence on the expression fragment, outside Known_C08: whatever the printer's output
    parses to prints as the same token sequence again *)
@@ -17,16 +17,31 @@ Theorem C09_format_idempotent_exists : forall e, known_C08 e = false ->
   exists fuel e', parse_expr fuel (impl e) = Some e' /\ impl e' = impl e.
 Proof. exact impl_idempotent. Qed.
 
-(* (ii) comment text, one-line form: what the printer writes the lexer reads back unchanged.
-   Full statement (for every width w and every normalised text not starting with `*`):
-     lex_block_comment (render w (multiline_comment is_doc text)) = Some (is_doc, text, [NLc])
-   proved here for the layout the engine chooses whenever the comment fits the line; the wrapped
-   layouts are compared with the model by execution (C09/Corr.v roundtrip_check), not proved. *)
-Theorem C09_block_comment_text_roundtrip_partial : forall is_doc text rest,
+(* (ii) comment text.  Block and doc comments: for EVERY width, rendering the comment document and
+   re-lexing gives the same comment (kind and text), for every normalised text (non-empty words
+   without blanks separated by single spaces) that does not start with `*` and has no `*/` inside. *)
+Theorem C09_block_comment_text_roundtrip : forall w is_doc text,
+  normalised text = true -> star_free_start text -> has_close text = false ->
+  lex_block_comment (render w (multiline_comment is_doc text)) = Some (is_doc, text, [NLc]).
+Proof. exact block_comment_roundtrip_all_widths. Qed.
+
+(* the layouts the engine can choose for such a document, whatever the width *)
+Theorem C09_block_comment_layouts : forall fuel w is_doc text ts,
+  gbd fuel w 0 false [(0, multiline_comment is_doc text)] [] = Fits ts ->
+  ts = flat_toks is_doc text \/
+  exists ch, length ch = length (words text) /\ ts = ml_toks is_doc (words text) ch.
+Proof. exact multiline_layouts. Qed.
+
+Theorem C09_block_comment_one_line_roundtrip : forall is_doc text rest,
   no_nl text -> first_ok text -> last_ok text -> has_close text = false ->
   lex_block_comment (starter is_doc ++ [SP] ++ text ++ EC ++ rest) = Some (is_doc, text, rest).
 Proof. exact block_comment_flat_roundtrip. Qed.
 
+(* Line comments.  Full statement (every width): the line comments read back from
+   render w (line_comment text), empty ones dropped, joined by single spaces, are `text`.
+   Proved for the one-line layout; the wrapped layouts are evaluated on the model at 45 widths per
+   text by the check (C09/Corr.v roundtrip_check), and they leave a trailing empty `//` line when
+   the last word does not fit (a finding, see checks/c09.py). *)
 Theorem C09_line_comment_text_roundtrip_partial : forall text rest,
   no_nl text -> first_ok text -> last_ok text ->
   lex_line_comment (LC ++ text ++ NLc :: rest) = Some (text, NLc :: rest).
@@ -61,7 +76,9 @@ Proof. vm_compute. split; reflexivity. Qed.
 
 Print Assumptions C09_format_idempotent_fragment.
 Print Assumptions C09_format_idempotent_exists.
-Print Assumptions C09_block_comment_text_roundtrip_partial.
+Print Assumptions C09_block_comment_text_roundtrip.
+Print Assumptions C09_block_comment_layouts.
+Print Assumptions C09_block_comment_one_line_roundtrip.
 Print Assumptions C09_line_comment_text_roundtrip_partial.
 Print Assumptions C09_handout_exact.
 Print Assumptions C09_handout_complete.
